@@ -759,4 +759,31 @@ theorem shapeBroadcastTo_isSome_iff (src dst : Shape) :
     simp [hle, axR_eq_gd]
   · simp [hle]
 
+/-! ### zero extents: the implementation's maximum against NumPy's "extent that is not 1" -/
+
+theorem bc1_eq_npBc1 (a b : Nat) (h : ¬ ((a = 0 ∧ b = 1) ∨ (a = 1 ∧ b = 0))) : bc1 a b = npBc1 a b := by
+  unfold bc1 npBc1
+  split
+  · rename_i hc
+    congr 1
+    split <;> split <;> omega
+  · rfl
+
+theorem bcRev_eq_npRev (a b : List Nat) (h : zeroOneRev a b = false) : bcRev a b = npRev a b := by
+  induction a generalizing b with
+  | nil => simp [bcRev, npRev]
+  | cons x xs ih =>
+    cases b with
+    | nil => simp [bcRev, npRev]
+    | cons y ys =>
+      simp only [zeroOneRev, Bool.or_eq_false_iff, Bool.and_eq_false_imp, beq_iff_eq] at h
+      obtain ⟨⟨h1, h2⟩, h3⟩ := h
+      have : bc1 x y = npBc1 x y := by
+        apply bc1_eq_npBc1
+        rintro (⟨e1, e2⟩ | ⟨e1, e2⟩)
+        · have := h1 e1; simp [e2] at this
+        · have := h2 e1; simp [e2] at this
+      rw [bcRev, npRev, this, ih ys h3]
+      try (cases npBc1 x y <;> rfl)
+
 end NmVerif
